@@ -691,6 +691,7 @@ const c10Proj = "{| p_gas := false; p_transfers := true; p_logs := false; p_retd
 
 func init() {
 	runners["C10"] = func(c *ctx) {
+		c.stateProj = "sp_balances" // the part of the state this property's theorems speak about
 		u := newUniverse()
 		c.rep.Rule = "every successful call is checked on the implementation: (1) every non-empty OutputTransfer.Data is parsed with the real call-arguments parser and compared with what was encoded: for continuations (ESDTTransfer / ESDTBurn by a contract, cross-shard ESDTNFTTransfer and MultiESDTNFTTransfer, ESDTNFTCreateRoleTransfer, SetUserName) the function's own name and the documented argument list (marshalled entries compared decoded: value = requested quantity, metadata = the sender's), for attached calls the attached name and arguments; (2) every DELIVER of a continuation must be accepted unless the destination is frozen / paused / not payable (or the oracle fails) / holds another hash / already has a user name / holds an aliasing entry of another type; (3) the real ESDT-transfer parser is run on every accepted ESDTTransfer / ESDTNFTTransfer / MultiESDTNFTTransfer call, origin side, delivered side and refunds: receiver = the ledger's destination, per storage key the reported values = balance decrease of the sender = balance increase of the destination (same shard or at delivery) = quantity in the in-flight message, the destination-side report of the emitted message = the origin-side report, and for a contract destination the reported call function and arguments = parse of the call the ledger forwards. Families: attached names x argument pools x three functions x same/cross shard x contract/user destination; names that are empty or contain '@' (F10); numbers with leading zeros, multi-word quantities, nonces and counts, 1..4 tokens with repeats; the other continuations; refused deliveries and refunds; random walks. Every executed call is re-evaluated in the Coq model (transfers = the emitted data strings, state). distinct = distinct (shard state, call)."
 		c.setExecStream(c10Proj)
